@@ -649,7 +649,8 @@ func (c *CheckCtx) writeEvidence(wall time.Duration) {
 		"functions_encoded":           sortedFuncs(c.Results),
 		"bounds":                      c.P.Bounds,
 		"stubs":                       c.P.Stubs,
-		"solver":                      map[string]string{"deciding": c.R.solver, "z3": "4.8.12"},
+		"solver":                      map[string]string{"deciding": c.R.solver, "z3": "4.8.12", "portfolio": "queries z3 4.8.12 leaves unknown after 250 ms incremental + 2 s fresh context go to z3 5.1.0, then cvc5 1.0.3, then z3 again with the full timeout"},
+		"queries_decided_by_fallback": fallbackTotals(c.Results),
 		"solver_time_s":               st.Seconds(),
 		"load_time_s":                 c.L.loadTime.Seconds(),
 		"exhaustive":                  c.P.Exhaust && len(c.Undecided) == 0,
@@ -757,4 +758,14 @@ func termSize(t *Term, cap int) int {
 	}
 	rec(t)
 	return len(seen)
+}
+
+func fallbackTotals(rs []JobResult) map[string]int {
+	t := map[string]int{}
+	for _, r := range rs {
+		for k, v := range r.Fallbacks {
+			t[k] += v
+		}
+	}
+	return t
 }
